@@ -1,0 +1,100 @@
+//go:build verif
+
+// Contracts for the deductive checks under /verif (comment-only; no code).
+
+package blockservice
+
+// "the validator accepts c under allowlist al" — the right-hand side of ValidateCid's contract
+//@ macro validCid(al, c) = alAllowed(al, cidPrefix(c).MhType) && alMin(al, cidPrefix(c).MhType) <= cidPrefix(c).MhLength && cidPrefix(c).MhLength <= alMax(al, cidPrefix(c).MhType)
+
+//@ spec blockCid(b blocks.Block) cid.Cid
+//@ func iface github.com/ipfs/go-block-format.Block.Cid
+//@   ensures result == blockCid(self)
+
+// the allowlist a block service enforces (a stable attribute of the service)
+//@ spec svcAllowlist(bs BlockService) verifcid.Allowlist
+//@ func grabAllowlistFromBlockservice
+//@   assumed
+//@   ensures result == svcAllowlist(bs)
+//@ func iface BlockService.Blockstore
+//@   pure
+//@ func iface BlockService.Exchange
+//@   pure
+
+// ghost: blocks known to be in the local blockstore
+//@ ghost stored(b blocks.Block) bool
+//@ spec isNotFoundErr(e error) bool
+//@ func ext github.com/ipfs/go-ipld-format.IsNotFound
+//@   ensures result == isNotFoundErr(err)
+
+// blockstore contract as seen by the block service (proved for the datastore-backed store under C01)
+//@ func iface github.com/ipfs/boxo/blockstore.Blockstore.Get
+//@   ensures[hit] err == nil ==> blockCid(result0) == arg2 && stored(result0)
+//@ func iface github.com/ipfs/boxo/blockstore.Blockstore.Has
+//@ func iface github.com/ipfs/boxo/blockstore.Blockstore.Put
+//@   modifies stored(arg2)
+//@   ensures err == nil ==> stored(arg2)
+//@ func iface github.com/ipfs/boxo/blockstore.Blockstore.PutMany
+//@ func iface github.com/ipfs/boxo/blockstore.Blockstore.DeleteBlock
+// the exchange is NOT trusted to return the block that was asked for (property C05 quantifies over malicious exchanges)
+//@ func iface github.com/ipfs/boxo/exchange.Fetcher.GetBlock
+//@ func iface github.com/ipfs/boxo/exchange.Interface.NotifyNewBlocks
+//@ func iface github.com/ipfs/boxo/exchange.Interface.GetBlock
+
+//@ func getBlock
+//@   prop C04 C05
+//@   arith int
+//@   modifies all
+//@   site[get_valid] invoke:Get : validCid(svcAllowlist(bs), arg2)
+//@   site[fetch_valid] invoke:GetBlock : validCid(svcAllowlist(bs), arg2)
+//@   site[fetch_only_missing] invoke:GetBlock : isNotFoundErr(err)
+//@   site[fetch_requested] invoke:GetBlock : arg2 == c
+//@   site[store_what_was_fetched] invoke:Put : arg2 == blk
+//@   ensures[validated] err == nil ==> validCid(svcAllowlist(bs), c)
+//@   ensures[in_store] err == nil ==> stored(result0)
+//@   ensures[cid_matches] err == nil ==> blockCid(result0) == c
+
+//@ func (*blockService).AddBlock
+//@   prop C04
+//@   arith int
+//@   requires s != nil
+//@   modifies all
+//@   site[put_valid] invoke:Put : validCid(s.allowlist, blockCid(arg2)) && arg2 == o
+//@   site[has_valid] invoke:Has : validCid(s.allowlist, arg2)
+//@   site[notify_valid] invoke:NotifyNewBlocks : validCid(s.allowlist, blockCid(o))
+//@   ensures[validated] err == nil ==> validCid(s.allowlist, blockCid(o))
+
+//@ func iface github.com/ipfs/boxo/exchange.Fetcher.GetBlocks
+
+// the goroutine body of getBlocks (free variables: ctx, ks, blockservice, fetchFactory, out)
+//@ func getBlocks$1
+//@   prop C04 C05
+//@   arith int
+//@   modifies all
+//@   dyn callparam:fetchFactory noeffect
+//@   loop 0 invariant[prefix_valid] 0 - 1 <= rangeindex && forall(j, 0, rangeindex + 1, validCid(allowlist, ks[j]))
+//@   loop 0 invariant[index] (rangeindex >= 0 ==> lastAllValidIndex == rangeindex) && (rangeindex < 0 ==> lastAllValidIndex == 0)
+//@   loop 1 invariant[filtered] forall(j, 0, len(ks2), validCid(allowlist, ks2[j]))
+//@   loop 2 invariant[all_valid] forall(j, 0, len(ks), validCid(allowlist, ks[j]))
+//@   loop 2 invariant[misses_valid] forall(j, 0, len(misses), validCid(allowlist, misses[j]))
+//@   loop 2 invariant[separate] len(ks) > 0 ==> arr(misses) != arr(ks)
+//@   site[get_valid] invoke:Get : validCid(allowlist, arg2)
+//@   site[send_local] select-send#0 : blockCid(arg0) == c && validCid(allowlist, c) && stored(arg0)
+//@   site[fetch_valid] invoke:GetBlocks : forall(j, 0, len(arg2), validCid(allowlist, arg2[j]))
+//@   site[fetch_only_misses] invoke:GetBlocks : arg2 == misses && len(misses) > 0
+//@   site[send_fetched_stored] select-send#1 : stored(arg0)
+//@   site[send_fetched_valid] select-send#1 : validCid(allowlist, blockCid(arg0))
+
+//@ func (*blockService).AddBlocks
+//@   prop C04
+//@   arith int
+//@   requires s != nil
+//@   modifies all
+//@   loop 0 invariant[prefix_valid] forall(j, 0, rangeindex + 1, validCid(s.allowlist, blockCid(bs[j])))
+//@   loop 1 invariant[all_valid] forall(j, 0, len(bs), validCid(s.allowlist, blockCid(bs[j])))
+//@   loop 1 invariant[toput_valid] forall(j, 0, len(toput), validCid(s.allowlist, blockCid(toput[j])))
+//@   loop 1 invariant[separate] len(bs) > 0 ==> arr(toput) != arr(bs)
+//@   loop 1 invariant[allowlist_kept] s.allowlist == old(s.allowlist)
+//@   site[has_valid] invoke:Has : validCid(s.allowlist, arg2)
+//@   site[putmany_valid] invoke:PutMany : forall(j, 0, len(arg2), validCid(s.allowlist, blockCid(arg2[j])))
+//@   site[notify_valid] invoke:NotifyNewBlocks : forall(j, 0, len(arg2), validCid(s.allowlist, blockCid(arg2[j])))
